@@ -11,7 +11,7 @@ import (
 
 func init() {
 	register("C10", runC10, propMeta{
-		Explanation: "Decides the structural conditions behind 'total, all-or-nothing, identical across entry points': (K1, sibling cross-check) each of the three functions that create a lexer (BuildRuleFromString, BuildRuleWithIncremental, getKc) feeds the whole text to one input stream, attaches a fresh GengineErrorListener to the lexer and another to the parser, walks psr.Primary() with a GengineParserListener over a fresh KnowledgeContext, and every return with a nil error is dominated by the three tests len(lexerErrors)>0, len(parserErrors)>0, len(listener.ParseErrors)>0, each of whose true edges returns a new error; the five public entry points reach exactly these pipelines (call graph); (K2) no store to installed state can be followed by an error return in any entry point or helper; (K3) the listener stores a rule under its name only on the miss edge of a lookup of the same name in the same map, the hit edge records an error; (K4) holder completeness: every Enter handler that pushes pushes one *base.T, the matching Exit pops once asserting the same type, and for every handler that asserts the type of the stack top, every possible nearest pushing ancestor in the generated parser's rule call graph (all rule-invocation chains, which is also the nesting of error-recovered trees) pushes a type that implements the asserted interface / is the asserted type, and the stack cannot be empty there; (K5) every handler that touches the stack or the container does so only after the guard `len(ParseErrors) > 0 -> return`, so after the first recorded error the stack is never touched again. Not decided: that the ANTLR lexer/parser never panic on arbitrary bytes and that token accessors (ctx.SIMPLENAME() etc.) are non-nil on error-recovered contexts.",
+		Explanation: "Decides the structural conditions behind 'total, all-or-nothing, identical across entry points': (K1, sibling cross-check) each of the three functions that create a lexer (BuildRuleFromString, BuildRuleWithIncremental, getKc) feeds the whole text to one input stream, attaches a fresh GengineErrorListener to the lexer and another to the parser, walks psr.Primary() with a GengineParserListener over a fresh KnowledgeContext, and every return with a nil error is dominated by the three tests len(lexerErrors)>0, len(parserErrors)>0, len(listener.ParseErrors)>0, each of whose true edges returns a new error; the five public entry points reach exactly these pipelines (call graph); (K2) no store to installed state can be followed by an error return in any entry point or helper; (K3) the listener stores a rule under its name only on the miss edge of a lookup of the same name in the same map, the hit edge records an error; (K4) holder completeness: every Enter handler that pushes pushes one *base.T, the matching Exit pops once asserting the same type, and for every handler that asserts the type of the stack top, every possible nearest pushing ancestor in the generated parser's rule call graph (all rule-invocation chains, which is also the nesting of error-recovered trees) pushes a type that implements the asserted interface / is the asserted type, and the stack cannot be empty there; (K5) every handler that touches the stack or the container does so only after the guard `len(ParseErrors) > 0 -> return`, so after the first recorded error the stack is never touched again. (K8) no handler of the listener package cuts a string or slice by position unless dominating length tests cover the bounds (contexts of truncated texts have empty text). Not decided: that the ANTLR lexer/parser never panic on arbitrary bytes and that token accessors (ctx.SIMPLENAME() etc.) are non-nil on error-recovered contexts.",
 		Assumptions: []string{"ANTLR builds a parse tree nested by rule invocation and calls Enter/Exit in matching pairs", "the antlr runtime itself is total"},
 		Trusted:     commonTrusted,
 	})
@@ -337,6 +337,8 @@ func runC10(c *Ctx) {
 		}
 	}
 	c.Min("K7-merged-as-requested", 30)
+	c.ruleListenerCannotFault("K8-listener-cannot-fault")
+	c.Min("K8-listener-cannot-fault", 1)
 }
 
 // ruleUniqueNames (K3 / H7)
@@ -706,4 +708,130 @@ func (c *Ctx) ruleListenerAttach(rule string) {
 		c.Lost(rule, "Stack.Pop() calls in the listener's Exit handlers")
 	}
 	c.Min(rule, 15)
+}
+
+// ruleListenerCannotFault (K8): the listener's handlers run on every parse tree, including the trees of
+// rejected and truncated texts, whose contexts have empty text. Cutting a piece out of a string or
+// slice there (s[a:b], s[i]) at constant or len(s)-constant bounds must be covered by dominating length
+// tests; otherwise some input text makes it panic and the compile entry point does not return normally.
+// Bounds held in variables are counted but not decided.
+func (c *Ctx) ruleListenerCannotFault(rule string) {
+	n, undecided := 0, 0
+	for _, f := range c.AllFns {
+		if f.Pkg == nil || f.Pkg.Pkg.Path() != modPath+"/internal/iparser" {
+			continue
+		}
+		x := c.Index(f)
+		k := 0
+		eachInstr(f, func(in ssa.Instruction) {
+			var coll ssa.Value
+			var lo, hi ssa.Value
+			isSlice := false
+			switch t := in.(type) {
+			case *ssa.Slice:
+				switch t.X.Type().Underlying().(type) {
+				case *types.Basic, *types.Slice:
+				default:
+					return
+				}
+				coll, lo, hi, isSlice = t.X, t.Low, t.High, true
+				if lo == nil && hi == nil {
+					return
+				}
+			case *ssa.Index:
+				if _, isStr := t.X.Type().Underlying().(*types.Basic); !isStr {
+					return
+				}
+				coll, lo = t.X, t.Index
+			case *ssa.IndexAddr:
+				if _, isSl := t.X.Type().Underlying().(*types.Slice); !isSl {
+					return
+				}
+				if il, isL := t.Index.(*ssa.UnOp); isL {
+					if a2, isA := il.X.(*ssa.Alloc); isA && a2.Comment == "rangeindex" {
+						return
+					}
+				}
+				coll, lo = t.X, t.Index
+			default:
+				return
+			}
+			k++
+			n++
+			key := fmt.Sprintf("%s#cut%d", fnName(f), k)
+			lenS := x.symLen(coll)
+			lb := x.lenLowerBound(coll, in.Block())
+			// need(v): the smallest length that makes bound/index v valid, or -1 when unknown
+			need := func(v ssa.Value, index bool) int64 {
+				if v == nil {
+					return 0
+				}
+				s := x.symInt(v)
+				extra := int64(0)
+				if index {
+					extra = 1
+				}
+				if len(s.terms) == 0 {
+					if s.k < 0 {
+						return -1
+					}
+					return s.k + extra
+				}
+				// len(coll) - c
+				d := s.add(lenS, -1)
+				if len(d.terms) == 0 && d.k <= 0 {
+					if index && d.k == 0 {
+						return -1
+					}
+					return -d.k
+				}
+				return -1
+			}
+			nl, nh := need(lo, !isSlice), need(hi, false)
+			ok := nl >= 0 && nh >= 0
+			want := nl
+			if nh > want {
+				want = nh
+			}
+			if ok && isSlice && lo != nil && hi != nil {
+				// low <= high as well: a + b <= len for s[a:len-b]
+				sl, sh := x.symInt(lo), x.symInt(hi)
+				d := sh.add(sl, -1) // high - low
+				switch {
+				case len(d.terms) == 0:
+					ok = d.k >= 0
+				default:
+					dd := d.add(lenS, -1) // (high-low) - len = -(a+b)
+					if len(dd.terms) == 0 {
+						if -dd.k > want {
+							want = -dd.k
+						}
+					} else {
+						ok = false
+					}
+				}
+			}
+			if !ok {
+				// a bound held in a variable (a hand-written scan): whether it stays inside is a question
+				// about the values the variable takes, which this rule does not decide
+				undecided++
+				return
+			}
+			c.Check(rule, key, lb >= want, in.Pos(), "cutting %s out of %s needs len >= %d; the dominating tests imply len >= %d", describeCut(x, lo, hi, isSlice), x.Describe(coll), want, lb)
+		})
+	}
+	c.Check(rule, "inventory", true, 0, "%d string/slice cuts in the listener package examined, %d of them with a bound held in a variable (not decided)", n, undecided)
+}
+
+func describeCut(x *FnIndex, lo, hi ssa.Value, isSlice bool) string {
+	d := func(v ssa.Value) string {
+		if v == nil {
+			return ""
+		}
+		return x.symInt(v).String()
+	}
+	if isSlice {
+		return "[" + d(lo) + ":" + d(hi) + "]"
+	}
+	return "[" + d(lo) + "]"
 }
